@@ -1855,6 +1855,40 @@ theorem reserve_commits_free_devices (w : World) (ann : Option DevRes) (hint : B
     subst hr
     exact ⟨h1.symm, allocate_mem_free _ a r hal⟩
 
+/-- **reserve_within_designation**: with a non-empty designation in force Reserve only commits designated devices -/
+theorem reserve_within_designation (w : World) (ann : Option DevRes) (hint : Bool) (steps : List CStep)
+    (x : Nat) (minors : List Nat) (a : AllocReq) (p : Nat) (s' : TState) (c' : PState) (ms : List Nat) (des : DevRes)
+    (h : cycReserve (wGet (cycRun w (cycPreFilter ann hint) steps).1 x) minors a
+          (cycRun w (cycPreFilter ann hint) steps).2 p = (s', c', true))
+    (hres : c'.result = some ms) (hann : ann = some des) (hh : hint = true) (hne : des ≠ []) :
+    ∀ m ∈ ms, drHas des m = true ∧ minors.contains m = true := by
+  intro m hm
+  obtain ⟨_, hfree⟩ := reserve_commits_free_devices w ann hint steps x minors a p s' c' ms h hres
+  obtain ⟨f, hf, _⟩ := hfree m hm
+  have hd : (cycRun w (cycPreFilter ann hint) steps).2.designated = some des := by
+    rw [(filter_clears_trial_result w ann hint steps).2, hh, hann]; rfl
+  simp only [cycView, hd] at hf
+  obtain ⟨h1, e, h2⟩ := filterT_free_keys _ _ _ _ _ _ hf
+  exact ⟨calcFree_required_keys _ des hne m e h2, h1⟩
+
+/-- the hypotheses are satisfiable and the statement bites: two nodes with GPUs 0 and 1; on node 1 GPU 0 is in use.  A pod
+    designated to GPU 0 passes Filter on node 0 and fails it on node 1; then another pod takes GPU 0 of node 0: Reserve
+    on node 0 now fails (it allocates at the commit point) and leaves the ledger alone; a pod designated to GPU 1 is
+    committed on GPU 1 of whichever node Reserve names. -/
+example :
+    let inv : TState := refreshT TState.empty [(0, [some 100]), (1, [some 100])]
+    let w : World := [inv, addT inv 1 [(0, [some 100])]]
+    let a : AllocReq := { req := [some 100], desired := 1, npcie := 0, required := [], preferred := [] }
+    let steps := [CStep.filter 0 [0, 1] a, CStep.filter 1 [0, 1] a, CStep.event 0 (Op.add 7 [(0, [some 100])])]
+    let wc := cycRun w (cycPreFilter (some [(0, [some 100])]) true) steps
+    let wd := cycRun w (cycPreFilter (some [(1, [some 100])]) true) steps
+    (cycFilter (wGet w 0) [0, 1] a (cycPreFilter (some [(0, [some 100])]) true)).2 = true ∧
+    (cycFilter (wGet w 1) [0, 1] a (cycPreFilter (some [(0, [some 100])]) true)).2 = false ∧
+    (cycReserve (wGet wc.1 0) [0, 1] a wc.2 9).2.2 = false ∧
+    (cycReserve (wGet wc.1 0) [0, 1] a wc.2 9).1.used = (wGet wc.1 0).used ∧
+    (cycReserve (wGet wd.1 1) [0, 1] a wd.2 9).2.1.result = some [1] ∧
+    drVal (cycReserve (wGet wd.1 1) [0, 1] a wd.2 9).1.used 1 0 = 100 := by decide
+
 /-- why the result must be cleared: a cycle state that still holds the trial result of ANOTHER node (minor 0 was free
     there) makes Reserve commit it unchecked on a node whose device 0 is fully in use — 200 in use of 100 -/
 theorem stale_result_counterexample :
